@@ -344,7 +344,20 @@ func propC16(c c16Case) (v hh.Verdict) {
 			if len(op.Others) >= 2 && conflict {
 				merge3 = true
 			}
-			live, models = append(live, live[op.Src].Merge(others[0], others[1:]...)), append(models, nm)
+			// the operands are handed over as callers build such lists: appended to a slice with room to spare, the first
+			// one split off, the rest spread
+			list := make([]*z.StructSchema, 0, len(others)+3)
+			list = append(list, others...)
+			merged := live[op.Src].Merge(list[0], list[1:]...)
+			for i := range others {
+				if list[i] != others[i] {
+					return hh.Fail("after step %d (merge): Merge rewrote the caller's list of operands: position %d now holds another schema", step, i)
+				}
+			}
+			if extra := list[:cap(list)][len(list):]; extra[0] != nil || extra[1] != nil || extra[2] != nil {
+				return hh.Fail("after step %d (merge): Merge wrote into the spare capacity of the caller's list of operands", step)
+			}
+			live, models = append(live, merged), append(models, nm)
 		case "addTest":
 			if op.Src >= len(live) {
 				continue
